@@ -1682,6 +1682,8 @@ func scanRwRules(repo string) {
 						out.RwRules = append(out.RwRules, RwRule{name, a})
 					}
 				}
+				// the arms of a type switch over disjoint types are independent of their order: canonical order by type
+				sort.SliceStable(out.RwRules, func(a, b int) bool { return out.RwRules[a].Type < out.RwRules[b].Type })
 				out.RwRules = append(out.RwRules, RwRule{"<tail>", acts(rs.Body.List[i+1:])})
 			}
 			return false
